@@ -204,6 +204,13 @@ func (w *World) Exec(st *Step) (res StepResult) {
 		}
 		res.Err = err
 		res.Out = classify(err)
+		if err == nil {
+			name := fmt.Sprintf("c%d", sc.Idx)
+			if sc.Gen > 0 {
+				name = fmt.Sprintf("c%d.%d", sc.Idx, sc.Gen)
+			}
+			w.ActorNames[sc.Cli.ID().String()] = name
+		}
 		// Actor ids are ObjectIDs: seconds, then a process counter. One
 		// simulated second between activations makes their order a function
 		// of the schedule alone.
